@@ -444,3 +444,21 @@ def run(ctx):
                 ctx.check(kinds and all(k_ == INT(E(ctype_name)) for k_ in kinds), "R17.4",
                           "create_thread_chan:channel-kind-from-type:%s" % ctype_name, fn.loc(),
                           "a mark type declared %s gets channels of kind %s" % (ctype_name, kinds))
+
+
+_run_base = run
+
+
+def run(ctx):
+    _run_base(ctx)
+    prog = ctx.prog
+    ctx.rule("R17.5", "marks are shown exactly while the thread is active and on the CPU where it runs: the "
+             "active-thread selector accepts running, cooling and warming (C06 R6.2), a change of selection "
+             "disconnects the previous input whatever its index (C06 R6.4), and a migration recounts both the old and "
+             "the new CPU (C05 R5.1)")
+    from rules import round3
+    round3.share(ctx, "R17.5", "C06", lambda i_: (i_["rule"] == "R6.2" and i_["inst"].startswith("thread_select_")) or
+                 (i_["rule"] == "R6.4" and i_["inst"].startswith("cb_select:")), "view:",
+                 "marks leak into, or vanish from, the thread or CPU timeline", 8)
+    round3.share(ctx, "R17.5", "C05", lambda i_: i_["rule"] == "R5.1" and "migrate" in i_["inst"], "migration:",
+                 "the CPU the thread left keeps showing its marks", 1)
